@@ -195,7 +195,9 @@ class PropCheck:
         violations = []          # (line suffix, replay path)
         # 1. build model, driver, harness from the current trees
         try:
-            build.build_all(coq_targets=["Extract.vo"], release=self.release_too or self.tier == "thorough")
+            feats = getattr(self, "harness_features", None)
+            runner.FEATURES = feats
+            build.build_all(coq_targets=["Extract.vo"], release=self.release_too or self.tier == "thorough", features=feats)
         except build.BuildError as e:
             # the executables cannot be built: nothing is shown to hold
             path = self.write_build_failure(e)
